@@ -16,7 +16,7 @@ from genlm.grammar.cfg import CFG
 from genlm.grammar.cfglm import EOS, add_EOS, locally_normalize, BoolCFGLM
 
 SR = {"Bool": us.Boolean, "Sat2": us.Sat2, "Sat3": us.Sat3, "Rat": us.Float, "RatU": us.Rat,
-      "MaxTimes": us.MaxTimes, "Real": us.Real, "BM2": us.BM2}
+      "MaxTimes": us.MaxTimes, "Real": us.Real, "BM2": us.BM2, "Log": us.Log}
 EOS_NAME = tname(EOS)
 
 
@@ -59,6 +59,8 @@ def dec_w(R, w):
     q = Fraction(w[0], w[1])
     if R is us.Float:
         return q
+    if R is us.Log:
+        return us.mk(R, q)
     return R(q)
 
 
@@ -166,7 +168,7 @@ def warm_cfg(g, pre):
 
 
 def srmodel(srname):
-    return {"RatU": "Rat", "Real": "Rat"}.get(srname, srname)
+    return {"RatU": "Rat", "Real": "Rat", "Log": "Rat"}.get(srname, srname)
 
 
 def ustr(s):
@@ -641,6 +643,11 @@ def event(fn, args, site=None, feat=None, timeout=30):
     e["site"] = site or fn
     if feat:
         e["feat"] = feat
+    for key in ("out", "G"):
+        # a grammar the code produced whose weights exist only in floating point (Log semiring: no small rational
+        # within 1e-12) cannot be evaluated by the exact oracle: counted, not judged
+        if isinstance(e.get(key), dict) and any(isinstance(r.get("w"), list) and len(r["w"]) == 3 for r in e[key].get("rules", [])):
+            e["skip"] = "numeric-range"
     return e
 
 
